@@ -187,9 +187,10 @@ class CQN(RLAlgorithm):
                 action = np.random.randint(0, self.action_dim, size=len(obs))
             else:
                 action = np.argmax(
-                    (
-                        np.random.uniform(0, 1, (len(obs), self.action_dim))
-                        * action_mask
+                    np.where(
+                        np.asarray(action_mask) == 1,
+                        np.random.uniform(0, 1, (len(obs), self.action_dim)),
+                        -1.0,
                     ),
                     axis=1,
                 )
